@@ -282,7 +282,11 @@ def region_mixed_compute_dead_sinks(case):
         vars_ = P.build_da(prog)
     except Exception:
         return False  # not a program at all (rejected at build)
-    for x in (vars_[prog["outputs"][0]], vars_[0]):
+    try:
+        other = vars_[0] + 1 if vars_[0].dtype != np.bool_ else vars_[0]
+    except Exception:
+        other = vars_[0]
+    for x in (vars_[prog["outputs"][0]], other):
         try:
             opt = x.expr.optimize()
             from dask._expr import Expr
@@ -291,7 +295,7 @@ def region_mixed_compute_dead_sinks(case):
             nodes, deps, dependents = E.structure(g)
         except Exception:
             return True
-        own = {k for k in g if (k[0] if isinstance(k, tuple) else k) == opt._name}
+        own = set(E.flatten_keys(opt.__dask_keys__()))
         sinks = {k for k, d in dependents.items() if not d}
         if sinks - own:
             return True
